@@ -132,6 +132,25 @@ CASES = [
     ("norm nuc", "lambda anp, x: anp.linalg.norm(x, 'nuc')", [((3, 2), "R")], (0,)),
     ("norm ord=2 axis=0", "lambda anp, x: anp.linalg.norm(x, 2, axis=0)", [((3, 2), "R")], (0,)),
     ("norm complex vec", "lambda anp, x: anp.linalg.norm(x)", [((3,), "C")], (0,)),
+    ("norm ord=3 axis=1 square", "lambda anp, x: anp.linalg.norm(x, 3, axis=1)", [((3, 3), "R")], (0,)),
+    ("norm ord=3 axis=0 square", "lambda anp, x: anp.linalg.norm(x, 3, axis=0)", [((2, 2), "R")], (0,)),
+    ("norm ord=2.5 axis=-1 cube", "lambda anp, x: anp.linalg.norm(x, 2.5, axis=-1)", [((2, 2, 2), "R")], (0,)),
+    ("norm default axis=1 square", "lambda anp, x: anp.linalg.norm(x, axis=1)", [((3, 3), "R")], (0,)),
+    ("astype complex", "lambda anp, x: x.astype(complex) * (1 + 2j)", [((3,), "R")], (0,)),
+    ("repeat axis=-1 square", "lambda anp, x: anp.repeat(x, 3, axis=-1)", [((3, 3), "R")], (0,)),
+    ("repeat axis=-2 square", "lambda anp, x: anp.repeat(x, 2, axis=-2)", [((2, 2), "R")], (0,)),
+    ("tile reps longer than ndim", "lambda anp, x: anp.tile(x, (2, 2, 1))", [((2, 3), "R")], (0,)),
+    ("tile vector 2-D reps", "lambda anp, x: anp.tile(x, (2, 2))", [((3,), "R")], (0,)),
+    ("tile (1,2) reps (3,2,1)", "lambda anp, x: anp.tile(x, (3, 2, 2))", [((1, 2), "R")], (0,)),
+    ("rollaxis negative start", "lambda anp, x: anp.rollaxis(x, 2, -1)", [((2, 2, 2), "R")], (0,)),
+    ("rollaxis negative axis", "lambda anp, x: anp.rollaxis(x, -1, 0)", [((2, 3, 2), "R")], (0,)),
+    ("tensordot crossing pairs", "lambda anp, x, y: anp.tensordot(x, y, axes=([0, 1], [2, 1]))", [((2, 2, 3), "R"), ((3, 2, 2), "R")], (0, 1)),
+    ("tensordot crossing pairs 2", "lambda anp, x, y: anp.tensordot(x, y, axes=([1, 0], [0, 2]))", [((2, 2), "R"), ((2, 3, 2), "R")], (0, 1)),
+    ("norm nuc axis=(2,0)", "lambda anp, x: anp.linalg.norm(x, 'nuc', axis=(2, 0))", [((2, 3, 2), "R")], (0,)),
+    ("norm nuc axis=(1,0)", "lambda anp, x: anp.linalg.norm(x, 'nuc', axis=(1, 0))", [((2, 2, 3), "R")], (0,)),
+    ("clip zero bound", "lambda anp, x: anp.clip(x, 0.0, 1.0)", [((6,), "R")], (0,)),
+    ("clip zero upper bound", "lambda anp, x: anp.clip(x, -2.0, 0.0)", [((6,), "R")], (0,)),
+    ("matmul then zero residual", "lambda anp, x, y: anp.sum((x @ y) ** 2)", [((2, 2), "R"), ((2,), "R")], (0, 1)),
     ("norm complex vec ord=3", "lambda anp, x: anp.linalg.norm(x, 3)", [((3,), "C")], (0,)),
     ("norm complex fro", "lambda anp, x: anp.linalg.norm(x, 'fro')", [((2, 3), "C")], (0,)),
     ("norm complex matrix default", "lambda anp, x: anp.linalg.norm(x)", [((2, 2), "C")], (0,)),
@@ -506,7 +525,8 @@ def run_one(case):
                 okv = onp.allclose(onp.asarray(val), y0, rtol=1e-12, atol=1e-12)
                 out.append((f"{label}|arg{a}", "N-vjp", okk, f"max |vjp - conj(J^T conj g)| = {err:.2e} (scale {scale:.2f}), result shape {got.shape}, dtype {got.dtype}"))
                 out.append((f"{label}|arg{a}", "N-value", bool(okv), "primal under tracing equals NumPy"))
-                out.append((f"{label}|arg{a}", "N-shape", ok_shape and bool(onp.iscomplexobj(got)) == cplx_in,
+                dt_ok = got.dtype == onp.asarray(x).dtype if onp.asarray(x).dtype in (onp.dtype("float64"), onp.dtype("complex128")) else True   # default precision: same dtype
+                out.append((f"{label}|arg{a}", "N-shape", ok_shape and bool(onp.iscomplexobj(got)) == cplx_in and dt_ok,
                             f"gradient shape {got.shape} / dtype {got.dtype} for an argument of shape {xs.shape} / {'complex' if cplx_in else 'real'}"))
             except Exception as e:
                 out.append((f"{label}|arg{a}", "N-vjp-raises", True, f"{type(e).__name__}: {str(e)[:80]}"))
@@ -620,6 +640,40 @@ def run_scale(rep):
                                   "a degree-1 homogeneous function has a scale-invariant gradient", replay=dict(module="contracts.rules_numeric", scale_label=label), witness=True)
         except Exception as e:
             rep.note(f"N-scale {label}: {type(e).__name__}: {e}")
+
+
+def run_astype(rep):
+    """x.astype(<other precision / kind>): the gradient comes back in the ARGUMENT's dtype (C05: same dtype for default-precision arguments) with the exact
+    values of the (linear) cast; checked without finite differences (float32 steps are too coarse for them)."""
+    warnings.simplefilter("ignore")
+    import autograd.numpy as anp
+    from autograd.core import make_jvp, make_vjp
+    x64 = onp.array([0.5, -1.25, 2.0])
+    z128 = onp.array([0.5 + 1.0j, -1.0 + 0.25j])
+    w = onp.array([2.0, -3.0, 0.5])
+    cases = [("float64 -> float32", x64, onp.float32, lambda y: anp.sum(y * w), w), ("float64 -> float16", x64, onp.float16, lambda y: anp.sum(y * w), w),
+             ("float64 -> complex128", x64, complex, lambda y: anp.sum(anp.real(y * (2.0 + 1.0j))), onp.full(3, 2.0)), ("float64 -> float64", x64, float, lambda y: anp.sum(y * w), w),
+             ("complex128 -> complex64", z128, onp.complex64, lambda y: anp.sum(anp.real(y)), onp.ones(2) + 0j),
+             # the whole downstream computation stays in the NARROW dtype, so the cotangent reaching the cast is narrow too
+             ("float64 -> float32 (narrow cotangent)", x64, onp.float32, lambda y: anp.sum(anp.sin(y)), onp.cos(x64)),
+             ("float64 -> float16 (narrow cotangent)", x64, onp.float16, lambda y: anp.sum(y * y), 2 * x64),
+             ("complex128 -> complex64 (narrow cotangent)", z128, onp.complex64, lambda y: anp.real(anp.sum(y * y)), 2 * z128)]   # df = Re(grad * dz)
+    for lab, x, dt, post, gexp in cases:
+        rep.bounded_case(("astype " + lab, "N-astype"))
+        try:
+            f = lambda v: post(v.astype(dt))
+            g = onp.asarray(make_vjp(f, x)[0](1.0))
+            ok = g.dtype == x.dtype and g.shape == x.shape and onp.allclose(g, gexp, rtol=1e-3)
+            det = f"gradient {g.tolist()} of dtype {g.dtype} for an argument of dtype {x.dtype}; expected {onp.asarray(gexp).tolist()} in the argument's dtype"
+            if ok:
+                t = onp.asarray(make_jvp(lambda v: v.astype(dt), x)(onp.ones_like(x))[1])
+                ok = t.dtype == onp.dtype(dt) and t.shape == x.shape
+                det = f"tangent of x.astype({onp.dtype(dt)}) has dtype {t.dtype}"
+        except Exception as e:
+            rep.note(f"N-astype {lab}: raised {type(e).__name__}: {str(e)[:60]}")
+            continue
+        if not ok:
+            rep.violation("NUM:N-astype", lab, f"astype {lab}: {det}", replay=dict(module="contracts.rules_numeric", astype=lab), witness=True)
 
 
 def run_accum(rep):
